@@ -12,6 +12,7 @@ import (
 	"time"
 
 	"go.sia.tech/core/consensus"
+	rhp2 "go.sia.tech/core/rhp/v2"
 	rhp4 "go.sia.tech/core/rhp/v4"
 	"go.sia.tech/core/types"
 	"lukechampine.com/frand"
@@ -603,6 +604,26 @@ func RPCVerifySector(ctx context.Context, t TransportClient, prices rhp4.HostPri
 	}, nil
 }
 
+// freeSectorsProofSize returns the number of hashes (subtree and leaf hashes)
+// of a well-formed proof for freeing the given indices from a contract with
+// numSectors sectors. It mirrors how rhp4.BuildFreeSectorsProof translates the
+// indices: swap each with the current last sector, then trim.
+func freeSectorsProofSize(indices []uint64, numSectors uint64) uint64 {
+	actions := make([]rhp2.RPCWriteAction, 0, len(indices)+1)
+	for i, n := range indices {
+		actions = append(actions, rhp2.RPCWriteAction{
+			Type: rhp2.RPCWriteActionSwap,
+			A:    n,
+			B:    numSectors - uint64(i) - 1,
+		})
+	}
+	actions = append(actions, rhp2.RPCWriteAction{
+		Type: rhp2.RPCWriteActionTrim,
+		A:    uint64(len(indices)),
+	})
+	return rhp2.DiffProofSize(actions, numSectors)
+}
+
 // RPCFreeSectors removes sectors from a contract.
 func RPCFreeSectors(ctx context.Context, t TransportClient, signer ContractSigner, cs consensus.State, prices rhp4.HostPrices, contract ContractRevision, indices []uint64) (RPCFreeSectorsResult, error) {
 	// sort indices descending and remove duplicates to avoid swapping a
@@ -637,6 +658,11 @@ func RPCFreeSectors(ctx context.Context, t TransportClient, signer ContractSigne
 	var resp rhp4.RPCFreeSectorsResponse
 	if err := rhp4.ReadResponse(s, &resp); err != nil {
 		return RPCFreeSectorsResult{}, fmt.Errorf("failed to read response: %w", err)
+	} else if uint64(len(resp.OldSubtreeHashes)+len(resp.OldLeafHashes)) != freeSectorsProofSize(indices, numSectors) {
+		// VerifyFreeSectorsProof does not check the shape of the proof: with
+		// fewer subtree hashes than the requested indices require, a proof for
+		// freeing other indices verifies
+		return RPCFreeSectorsResult{}, clientErr("unexpected free sectors proof size", ErrInvalidProof)
 	} else if !rhp4.VerifyFreeSectorsProof(resp.OldSubtreeHashes, resp.OldLeafHashes, indices, numSectors, contract.Revision.FileMerkleRoot, resp.NewMerkleRoot) {
 		return RPCFreeSectorsResult{}, clientErr("failed to verify free sectors proof", ErrInvalidProof)
 	}
